@@ -33,7 +33,7 @@ func main() {
 	from := fs.Int("from", 0, "")
 	scale := fs.Float64("scale", 1, "scale of run counts")
 	deadline := fs.Int64("deadline", 0, "unix ms")
-	hang := fs.Duration("hang", 60*time.Second, "per-run watchdog")
+	hang := fs.Duration("hang", 0, "per-run watchdog (default: 2m quick, 6m thorough)")
 	budget := fs.Duration("budget", 0, "search budget")
 	profile := fs.String("profile", "", "")
 	seed := fs.Uint64("seed", 0, "")
@@ -43,6 +43,12 @@ func main() {
 	n := fs.Int("n", 40, "selftest seeds per profile")
 	fs.Parse(os.Args[2:])
 
+	if *hang == 0 {
+		*hang = 2 * time.Minute
+		if *tier == "thorough" {
+			*hang = 6 * time.Minute
+		}
+	}
 	if err := engine.LoadKnown(filepath.Join(*root, "known_findings.json")); err != nil {
 		fmt.Printf("INFRASTRUCTURE: %v\n", err)
 		os.Exit(2)
